@@ -90,9 +90,8 @@ def stepOp (H : Host) (pseudo : Option (List PChild)) (ptSpace : Bool) (r : Run)
     match pseudo with
     | some children =>
       match pseudoRead children plus size off errAt with
-      | none => { r with outs := r.outs.push "panic" }
-      | some (.error e) => { r with outs := r.outs.push s!"e{e}" }
-      | some (.ok es) =>
+      | .error e => { r with outs := r.outs.push s!"e{e}" }
+      | .ok es =>
         let (ids, s) := showEntries r.ids false es
         { r with ids := ids, outs := r.outs.push ("ok:" ++ s) }
     | none =>
